@@ -12,6 +12,7 @@ Layers
      `ebvIter`, `andE/orE/notE/ifE`
 -/
 import EPV.Spec.Timeline
+import EPV.Model.SeqFunsNum
 namespace EPV.Cmp
 
 /-! ## 1. numbers -/
@@ -784,10 +785,13 @@ def fillPair (itz : Option Int) (a b : Atom) : Atom × Atom :=
   if a.isDT && b.isDT then (a.fillTz itz, b.fillTz itz) else (a, b)
 
 /-- the comparison of one generated pair in the non-compatibility loop -/
-def pairGeneral (m : Mode) (op : Op) (a b : Atom) : R :=
+def pairGeneralWith (po : Atom → Atom → PyR) (m : Mode) (op : Op) (a b : Atom) : R :=
   match iterCheck m op a b with
   | .error e => liftPy e
-  | .ok (x, y) => liftPy (pyOp m op x y)
+  | .ok (x, y) => liftPy (po x y)
+
+/-- with the codepoint collation: the plain Python operator -/
+def pairGeneral (m : Mode) (op : Op) (a b : Atom) : R := pairGeneralWith (pyOp m op) m op a b
 
 /-- the same under a dynamic context with implicit timezone `itz` (minutes; none = no implicit
 timezone): `yield self.implicit_timezone_operands(context, op1, op2)` before the operator -/
@@ -921,8 +925,8 @@ def isNumCls : Atom → Bool | .int _ => true | .dec _ => true | .dbl _ => true 
 
 /-- _xpath2_operators.py:510-563 on two atomized single operands (UntypedAtomic already turned
 into `str` by get_atomized_operand) -/
-def valuePair (m : Mode) (op : Op) (a b : Atom) : R :=
-  let fin (x y : Atom) : R := liftPy (pyOp m op x y)
+def valuePairWith (po : Atom → Atom → PyR) (op : Op) (a b : Atom) : R :=
+  let fin (x y : Atom) : R := liftPy (po x y)
   if a.cls = b.cls && a.cls ≠ .dur then fin a b
   else if a.isFloatCls && b.isFloatCls then fin a b
   else if isBoolA a || isBoolA b then .error .XPTY0004
@@ -939,6 +943,9 @@ def valuePair (m : Mode) (op : Op) (a b : Atom) : R :=
       | .error e => liftPy e)
   else if a.isDur && b.isDur && (op = .eq || op = .ne) then fin a b
   else .error .XPTY0004
+
+/-- with the codepoint collation: the plain Python operator -/
+def valuePair (m : Mode) (op : Op) (a b : Atom) : R := valuePairWith (pyOp m op) op a b
 
 /-- value comparison of two atoms under implicit timezone `itz`
 (`operands[:] = self.implicit_timezone_operands(context, *operands)` before the operator) -/
@@ -972,6 +979,52 @@ def valueCmpCtx (itz : Option Int) (m : Mode) (op : Op) (L Rr : List Item) : Exc
   valueCmpWith (valuePairCtx itz m op) m L Rr
 
 /-! ### logic (and/or/not/if evaluate through boolean_value on the selected iterator) -/
+
+/-! ## the parser's default collation (base.py `collation_operator`, collations.py) -/
+
+/-- the collations of the harness: Unicode codepoint, html-ascii-case-insensitive (C08's `Coll`) -/
+abbrev Coll := EPV.Seq.Coll
+
+/-- `html_ascii_strxfrm` (collations.py): A-Z folded to a-z; the codepoint collation's key is the string -/
+def collKeyL (c : Coll) (s : Str) : Str :=
+  match c with
+  | .codepoint => s
+  | .asciiCI => s.map EPV.Seq.asciiLower
+
+/-- the string behind `str(x)` of a string-like operand -/
+def strVal : Atom → Option Str
+  | .str s | .uri s | .ua s => some s
+  | _ => none
+
+/-- base.py `collation_operator(op)`: the operator itself for the codepoint collation; otherwise two
+string-like operands (str, AnyURI, UntypedAtomic) are compared as `op(strcoll(str(op1), str(op2)), 0)`
+— an untyped left operand facing an anyURI is cast first — and any other pair is left to `op` -/
+def pyOpC (c : Coll) (m : Mode) (op : Op) (x y : Atom) : PyR :=
+  if c = .codepoint then pyOp m op x y else
+  match strVal x, strVal y with
+  | some s, some t =>
+    (match x, y with
+     | .ua _, .uri _ =>
+       (match strToUri s with
+        | .ok u => .ok (sCmp op (collKeyL c u) (collKeyL c t))
+        | .error e => e)
+     | _, _ => .ok (sCmp op (collKeyL c s) (collKeyL c t)))
+  | _, _ => pyOp m op x y
+
+/-- one pair of a general comparison under default collation `c` and implicit timezone `itz` -/
+def pairGeneralC (c : Coll) (itz : Option Int) (m : Mode) (op : Op) (a b : Atom) : R :=
+  pairGeneralWith (pyOpC c m op) m op (fillPair itz a b).1 (fillPair itz a b).2
+
+/-- general comparison under default collation `c` (XPath2Parser / XPath31Parser `default_collation=`) -/
+def generalCmpC (c : Coll) (itz : Option Int) (m : Mode) (op : Op) (L Rr : List Item) : R :=
+  generalCmpWith (pairGeneralC c itz m op) m op L Rr
+
+def valuePairC (c : Coll) (itz : Option Int) (m : Mode) (op : Op) (a b : Atom) : R :=
+  valuePairWith (pyOpC c m op) op (fillPair itz a b).1 (fillPair itz a b).2
+
+/-- value comparison under default collation `c` -/
+def valueCmpC (c : Coll) (itz : Option Int) (m : Mode) (op : Op) (L Rr : List Item) : Except Err (Option Bool) :=
+  valueCmpWith (valuePairC c itz m op) m L Rr
 
 /-- _xpath1_operators.py:63-66: Python `and` — the right operand is not evaluated when the left is false -/
 def andE (a b : R) : R :=
